@@ -2,6 +2,7 @@
 PARSED and compared as terms; never imported or executed."""
 
 import itertools as itt
+from itertools import combinations
 
 import networkx as nx
 
@@ -72,3 +73,21 @@ def same_graph(self, other) -> bool:
         and self.directed.edges() == other.directed.edges()
         and self.undirected.edges() == other.undirected.edges()
     )
+
+
+# ---- the flat undirected graph: every node, every directed edge and every bidirected edge as an undirected link
+def flat_graph(self):
+    rv = nx.Graph()
+    rv.add_nodes_from(self.nodes())
+    rv.add_edges_from(self.directed.edges())
+    rv.add_edges_from(self.undirected.edges())
+    return rv
+
+
+# ---- moralisation: a copy of the graph in which every two parents of a node are married by a bidirected edge
+def moralized(self):
+    rv = NxMixedGraph(directed=self.directed.copy(), undirected=self.undirected.copy())
+    for node in self.nodes():
+        for u, v in combinations(self.directed.predecessors(node), 2):
+            rv.add_undirected_edge(u, v)
+    return rv
